@@ -77,6 +77,17 @@ def crashed(ctx, p, what, racelog):
         for key, text in parse_races(racelog):
             ctx.violation(key, "data race reported by the Go race detector", {"report": text})
         return True
+    if p.returncode != 0:
+        # a panic in a goroutine the library started (it cannot be recovered by the caller) while the
+        # object was only being read by several callers
+        kind, fn, msg = vlib.crash_origin(err, vlib.REPO)
+        if kind == "library":
+            ctx.violation("crash:%s:%s" % (what, fn.split("/")[-1]),
+                          "%s: the process was killed inside %s during concurrent read-only use: %s" % (what, fn, msg),
+                          {"stderr_tail": err[-3000:]})
+            for key, text in parse_races(racelog):
+                ctx.violation(key, "data race reported by the Go race detector", {"report": text})
+            return True
     return False
 
 
